@@ -136,6 +136,32 @@ class _TaggedWire(object):
         return getattr(self._vs.wire, name)
 
     def callRemote(self, methname, *args, **kwargs):
+        from twisted.internet import defer
+        from twisted.python.failure import Failure
+        g = self._vs.grid
+        # client-side transport failures: the attempt itself fails with a bare exception (what the HTTP storage
+        # client produces: ConnectionRefusedError, TimeoutError, ...), nothing reaches the server
+        for f in getattr(g, "vf_client_faults", ()):
+            if f["tag"] in (None, self._tag) and f["server"] == self._vs.name and f["method"] in (None, methname):
+                f["seen"] += 1
+                if f["nth"] is None or f["seen"] == f["nth"]:
+                    f["fired"] += 1
+                    d = defer.Deferred()
+                    from foolscap.eventual import eventually
+                    eventually(d.errback, Failure(f["exc"]("injected: %s to %s" % (methname, self._vs.name))))
+                    return d
+        # requests held back on their way out (a slow path between this client and that server)
+        holds = getattr(g, "vf_holds", None)
+        if holds:
+            for key, queue in holds.items():
+                (t, srv, meth) = key
+                if t == self._tag and srv in (None, self._vs.name) and meth in (None, methname):
+                    d = defer.Deferred()
+                    queue.append((self, methname, args, kwargs, d))
+                    return d
+        return self._send(methname, args, kwargs)
+
+    def _send(self, methname, args, kwargs):
         g = self._vs.grid
         n0 = len(g.calls)
         d = self._vs.wire.callRemote(methname, *args, **kwargs)
@@ -152,6 +178,34 @@ class _TaggedWire(object):
         d = self.callRemote(methname, *args, **kwargs)
         d.addErrback(lambda f: None)
         return None
+
+
+def hold(g, tag, server=None, method=None):
+    """Hold back the matching requests of one client until release()."""
+    if not hasattr(g, "vf_holds"):
+        g.vf_holds = {}
+    g.vf_holds.setdefault((tag, server, method), [])
+    return (tag, server, method)
+
+
+def held(g, key):
+    return len(getattr(g, "vf_holds", {}).get(key, ()))
+
+
+def release(g, key):
+    queue = getattr(g, "vf_holds", {}).pop(key, [])
+    for (tw, methname, args, kwargs, d) in queue:
+        tw._send(methname, args, kwargs).chainDeferred(d)
+    return len(queue)
+
+
+def client_fault(g, server, exc, method=None, nth=None, tag=None):
+    """The nth matching request of a client to `server` fails on the client side with a bare exc(...)."""
+    if not hasattr(g, "vf_client_faults"):
+        g.vf_client_faults = []
+    f = dict(server=server, exc=exc, method=method, nth=nth, tag=tag, seen=0, fired=0)
+    g.vf_client_faults.append(f)
+    return f
 
 
 def tag_client(g, c, tag, monbox, hidden=()):
@@ -235,6 +289,20 @@ class WireMon(object):
         if e is not None and (s is None or e[0] >= s):
             return ("cs", e[1]) if e[1] is not None else ("nothing",)
         if s is not None:
+            return ("nothing",)
+        return ("never-looked",)
+
+    def snapshot(self, client):
+        """What `client` has been shown so far (to be compared later with known_in)."""
+        return (dict(self.obs.get(client, {})), dict(self.scan.get(client, {})))
+
+    @staticmethod
+    def known_in(snap, server, shnum):
+        obs, scan = snap
+        e, sc = obs.get((server, shnum)), scan.get(server)
+        if e is not None and (sc is None or e[0] >= sc):
+            return ("cs", e[1]) if e[1] is not None else ("nothing",)
+        if sc is not None:
             return ("nothing",)
         return ("never-looked",)
 
